@@ -48,6 +48,10 @@ def _enc(s: str) -> str:
     return s.replace(".", "%2E") if s in (".", "..") else s
 
 
+def _glob_escape(s: str) -> str:
+    return "".join("[" + c + "]" if c in "*?[" else c for c in s)
+
+
 def _gen_app(rng):
     keys = rng.sample(["model", "optim", "x/y", "progress", "ü", "m.1"], rng.randint(1, 3))
     app = {}
@@ -107,16 +111,20 @@ def run_sequence(ctx, seed: int, n_ops: int, fails: list, counts: dict):
                     path = os.path.join(root, f"s{len(snaps)}")
                     state = {k: StateDict(sg.build(s, None)) for k, s in spec.items()}
                     use_async = rng.random() < 0.35
-                    note("async_take" if use_async else "take", in_loop=in_loop)
+                    # some keys are declared replicated (their entries are then visible to EVERY rank index, also to
+                    # ranks that did not exist when the snapshot was taken)
+                    repl_keys = [k for k in spec if rng.random() < 0.4]
+                    globs = [_glob_escape(_enc(k)) + "/**" for k in repl_keys] or None
+                    note("async_take" if use_async else "take", in_loop=in_loop, replicated=repl_keys)
                     try:
                         if use_async:
-                            obj = _call(lambda: Snapshot.async_take(path, state).wait(), in_loop)
+                            obj = _call(lambda: Snapshot.async_take(path, state, replicated=globs).wait(), in_loop)
                         else:
-                            obj = _call(lambda: Snapshot.take(path, state), in_loop)
+                            obj = _call(lambda: Snapshot.take(path, state, replicated=globs), in_loop)
                     except Exception as e:  # noqa
                         fail(f"seq:take-raised:{type(e).__name__}", f"{'async_take' if use_async else 'take'} raised {type(e).__name__}: {str(e)[:160]}")
                         continue
-                    snaps.append({"path": path, "spec": spec, "obj": obj})
+                    snaps.append({"path": path, "spec": spec, "obj": obj, "repl": repl_keys})
                     continue
                 sn = rng.choice(snaps)
                 expect = {k: sg.build(s, None) for k, s in sn["spec"].items()}
@@ -152,7 +160,9 @@ def run_sequence(ctx, seed: int, n_ops: int, fails: list, counts: dict):
                     if not leaves:
                         continue
                     comps, leaf = rng.choice(leaves)
-                    mpath = "0/" + "/".join([_enc(key)] + [_enc(c) for c in comps])
+                    # a replicated entry may be asked for under any rank index (a rank >= the saved world size is a "new rank")
+                    rank_ix = rng.choice([0, 0, 1, 3]) if key in sn.get("repl", []) else 0
+                    mpath = f"{rank_ix}/" + "/".join([_enc(key)] + [_enc(c) for c in comps])
                     budget = rng.choice([None, None, 1, 7, 64])
                     out = None
                     if isinstance(leaf, torch.Tensor) and rng.random() < 0.5:
